@@ -107,6 +107,10 @@ func c13Run(ps int, m0, m1, m2 int, mlock bool, res *c13Res) string {
 		if msg := do([]apix.Op{{K: "reopen", Cfg: &c}}); msg != "" {
 			return fmt.Sprintf("reopen %d with %s: %s", i+1, c.String(), msg)
 		}
+		// the first transaction after the reopen fails at its first I/O call (physical rollback under the new options)
+		if msg := do([]apix.Op{beginW, op("put", P("p"), "failed", "M"), {K: "commitF", N: 0, V: "fail"}}); msg != "" {
+			return fmt.Sprintf("failing transaction after reopen %d with %s: %s", i+1, c.String(), msg)
+		}
 		if msg := do(c13Txs[i+1]); msg != "" {
 			return fmt.Sprintf("after reopen %d with %s: %s", i+1, c.String(), msg)
 		}
@@ -237,7 +241,7 @@ func C13(tier string) int {
 	_ = deadline
 	cov := map[string]interface{}{
 		"states": runs, "transitions": ops, "traces_validated_against_impl": ops, "evaluations": runs, "distinct_nontrivial": runs,
-		"rule":          "exhaustive enumeration of option schedules for one history with two reopen points (create + fill + nested bucket + sequence; reopen; overwrite with an overflow value, deletes, second bucket; reopen; nested bucket delete, drain, sequence, a rolled-back transaction): every assignment of {freelist backend, NoFreelistSync, NoGrowSync, InitialMmapSize 0/256 KiB, Mlock, StrictMode, PreLoadFreelist, wrong page-size option} at the first reopen (256) x the assignments listed for creation and for the second reopen (see schedule_sets), with a read-only open (with and without preloading) between the read-write opens and at the end; every API result and every dump is compared with the reference model, and after every open and commit the loaded free list must equal the decoder's set of unreachable pages and page accounting must be exact",
+		"rule":          "exhaustive enumeration of option schedules for one history with two reopen points (create + fill + nested bucket + sequence; reopen; overwrite with an overflow value, deletes, second bucket; reopen; nested bucket delete, drain, sequence, a rolled-back transaction; the first transaction after each reopen fails at its first I/O call): every assignment of {freelist backend, NoFreelistSync, NoGrowSync, InitialMmapSize 0/256 KiB, Mlock, StrictMode, PreLoadFreelist, wrong page-size option} at the first reopen (256) x the assignments listed for creation and for the second reopen (see schedule_sets), with a read-only open (with and without preloading) between the read-write opens and at the end; every API result and every dump is compared with the reference model, and after every open and commit the loaded free list must equal the decoder's set of unreachable pages and page accounting must be exact",
 		"samples":       []string{"create {array}, reopen {hashmap,nfs,ngs,imm=256K,strict,preload,psopt=8192}, reopen {hashmap}", "create {nfs}, read-only open without preload, reopen {array} (freelist flush commit), ..."},
 		"schedule_sets": map[string]int{"creation": len(c0s), "first_reopen": 256, "second_reopen": len(c2s), "page_sizes": len(sizes)},
 		"exhaustive":    len(errs) == 0 && skipped == 0, "harness_errors": errs, "opens": opens, "mlock_available": mlock,
